@@ -91,21 +91,22 @@ type gen struct {
 	migTo    detx.Key
 	outsider detx.Key
 
-	seq      map[string]uint64
-	pend     []pendingTx
-	inj      []detx.Inject
-	injKind  []string
-	nextProp uint64
-	evNonce  uint64 // last external event nonce claimed
-	extBlock uint64 // external chain height
-	debug    bool
-	govAddr  string
-	fxToken  string // external contract of the FX bridge token
-	tokens   []bridgeTok
-	nSmall   int               // the last nSmall oracles bond the minimum: a proposal can drop several of them at once
-	lastGas  map[string]uint64 // gas used by the last successful transaction of a kind (boundary-biased gas limits)
-	probes   [][2]string       // (op line, observation) of UpdateProposalOracles probes against the real keeper
-	tallies  [][2]string       // (op line, observation) of gov Tally probes
+	seq          map[string]uint64
+	pend         []pendingTx
+	inj          []detx.Inject
+	injKind      []string
+	nextProp     uint64
+	evNonce      uint64 // last external event nonce claimed
+	extBlock     uint64 // external chain height
+	debug        bool
+	govAddr      string
+	fxToken      string // external contract of the FX bridge token
+	tokens       []bridgeTok
+	nSmall       int               // the last nSmall oracles bond the minimum: a proposal can drop several of them at once
+	lastGas      map[string]uint64 // gas used by the last successful transaction of a kind (boundary-biased gas limits)
+	probes       [][2]string       // (op line, observation) of UpdateProposalOracles probes against the real keeper
+	tallies      [][2]string       // (op line, observation) of gov Tally probes
+	erc20Holders [][2]string       // (external token contract, user index) of deposits that were converted to the ERC-20 side
 }
 
 // bridgeTok is a many-to-one coin registered by governance whose aliases are its bridge denominations.
@@ -710,6 +711,9 @@ func (g *gen) run() {
 		if g.rng.Intn(4) == 0 {
 			target = hex.EncodeToString([]byte("erc20"))
 		}
+		if target != "" {
+			g.erc20Holders = append(g.erc20Holders, [2]string{contractAddr, fmt.Sprint(k % len(g.users))})
+		}
 		sender := g.ext[g.rng.Intn(len(g.ext))]
 		contractAddr := contractAddr
 		g.claimAll(func(b string) crosschaintypes.ExternalClaim {
@@ -743,6 +747,13 @@ func (g *gen) run() {
 
 	// ---- phase 6: power changes -> oracle set requests through the PowerDiff path
 	g.tx(g.oracles[1], &crosschaintypes.MsgAddDelegate{ChainName: ethChain, OracleAddress: g.oracles[1].Addr(), Amount: fx(int64(1 + g.rng.Intn(200)))})
+	// oracle housekeeping: reward withdrawal, re-delegation to another validator, bridger replacement (of the last oracle)
+	g.txMaybeTight(g.oracles[2], &crosschaintypes.MsgWithdrawReward{ChainName: ethChain, OracleAddress: g.oracles[2].Addr()})
+	g.txMaybeTight(g.oracles[3], &crosschaintypes.MsgReDelegate{ChainName: ethChain, OracleAddress: g.oracles[3].Addr(),
+		ValidatorAddress: g.vals[(3+1+g.rng.Intn(len(g.vals)-1))%len(g.vals)].Oper.Val().String()})
+	last := len(g.oracles) - 1
+	g.txMaybeTight(g.oracles[last], &crosschaintypes.MsgEditBridger{ChainName: ethChain, OracleAddress: g.oracles[last].Addr(),
+		BridgerAddress: detx.CosmosKey(g.seed, "bridger-replacement").Addr()})
 	g.endBlock(short, "small add-delegate (< 10%)")
 	g.tx(g.oracles[0], &crosschaintypes.MsgAddDelegate{ChainName: ethChain, OracleAddress: g.oracles[0].Addr(), Amount: fx(10_000 * int64(2+g.rng.Intn(4)))})
 	g.tx(g.oracles[2], &crosschaintypes.MsgAddDelegate{ChainName: ethChain, OracleAddress: g.oracles[2].Addr(), Amount: fx(2_000_000)}) // above maximum
@@ -772,6 +783,11 @@ func (g *gen) run() {
 					BridgeFee: sdk.NewCoin(tk.base, fee), ChainName: ethChain})
 			}
 		}
+	}
+	for k := 0; k < 1+g.rng.Intn(3); k++ { // outgoing bridge calls (never confirmed: they time out / their non-signers are slashed)
+		bu := g.anyUser()
+		g.txMaybeTight(bu, &crosschaintypes.MsgBridgeCall{ChainName: ethChain, Sender: bu.Addr(), Refund: bu.Addr(),
+			Coins: sdk.NewCoins(fxFrac(int64(1 + g.rng.Intn(500)))), To: g.ext[g.rng.Intn(len(g.ext))], Data: "", Value: sdkmath.ZeroInt(), Memo: ""})
 	}
 	u := g.anyUser()
 	g.tx(u, &crosschaintypes.MsgSendToExternal{Sender: u.Addr(), Dest: g.ext[0], Amount: sdk.NewCoin("nope", sdkmath.NewInt(5)), BridgeFee: sdk.NewCoin("nope", sdkmath.NewInt(1)), ChainName: ethChain})
@@ -866,6 +882,12 @@ func (g *gen) run() {
 	g.endBlock(short, "confirm batch")
 	batches := eth.GetOutgoingTxBatches(g.c.Ctx())
 	g.out.Count(fmt.Sprintf("batches-pending:%d", len(batches)))
+	if g.rng.Intn(2) == 0 {
+		// the external chain is far ahead when the next events are observed: the batches and bridge calls that are not
+		// executed now have timed out (cancelled / refunded in the same pass over the store)
+		g.extBlock += 100_000
+		g.out.Count("external-height-jump")
+	}
 	keep := -1
 	if len(batches) > 1 {
 		keep = g.rng.Intn(len(batches)) // this one is never executed: it times out / its non-signers are slashed
@@ -975,6 +997,30 @@ func (g *gen) run() {
 		g.endBlock(short, "signed window / slashing")
 	}
 	g.endBlock(22*day, "unbonding period elapses")
+	for i, o := range g.oracles { // the oracles dropped by the proposal take their stake back
+		if !contains(dropSmall, o.Addr()) {
+			g.txMaybeTight(g.oracles[i], &crosschaintypes.MsgUnbondedOracle{ChainName: ethChain, OracleAddress: o.Addr()})
+		}
+	}
+	g.tx(g.oracles[0], &crosschaintypes.MsgUnbondedOracle{ChainName: ethChain, OracleAddress: g.oracles[0].Addr()}) // still a proposal oracle
+	for _, tk := range g.tokens {                                                                                   // holders of the ERC-20 side convert back to coins
+		if pair, ok := g.c.App.Erc20Keeper.GetTokenPair(g.c.Ctx(), tk.base); ok {
+			for ui, cu := range g.users {
+				holds := false
+				for _, h := range g.erc20Holders {
+					if h[0] == tk.contract && h[1] == fmt.Sprint(ui) {
+						holds = true
+					}
+				}
+				if !holds && ui != 0 {
+					continue // user 0 always tries (fails without a balance)
+				}
+				// routed directly: the snapshot's tx decoder cannot take the signer from a hex `sender`
+				g.injectMsg(&erc20types.MsgConvertERC20{ContractAddress: pair.Erc20Address, Amount: sdkmath.NewInt(int64(1 + g.rng.Intn(1000))).MulRaw(1e15),
+					Receiver: cu.Addr(), Sender: cu.Hex().Hex()})
+			}
+		}
+	}
 	from := g.anyUser()
 	g.tx(from, banktypes.NewMsgSend(from.Acc(), g.anyUser().Acc(), sdk.NewCoins(fxFrac(5))))
 	g.endBlock(short, "final")
@@ -1211,6 +1257,15 @@ func (g *gen) probeTally(id uint64) {
 	g.out.Count(fmt.Sprintf("probe-tally:votes=%d,validators-voted=%d", min(nVotes, 9), len(contribs)))
 	g.tallies = append(g.tallies, [2]string{fmt.Sprintf("tallyop %s | %s", render(base), cs),
 		fmt.Sprintf("%s:%s:%s:%s", res.YesCount, res.AbstainCount, res.NoCount, res.NoWithVetoCount)})
+}
+
+func contains(l []string, x string) bool {
+	for _, e := range l {
+		if e == x {
+			return true
+		}
+	}
+	return false
 }
 
 func mustAny(c crosschaintypes.ExternalClaim) *codectypes.Any {
